@@ -21,7 +21,7 @@ func (eng *Engine) buildVCWith(fn *ssa.Function, con *Contract, key string) (vc 
 		keySort: map[string]Sort{}, notes: map[string]bool{}, occ: map[string]int{}, allocNames: map[string][]*ssa.Alloc{},
 		paramVals: map[string]Val{}, callOcc: map[string]int{}, trustedUsed: map[string]bool{}, calleesUsed: map[string]bool{},
 		rangeIters: map[ssa.Value]*rangeIter{}, witKeys: map[string]bool{}, tablesUsed: map[string]bool{}, tableInfo: map[string]*tableInfo{},
-		pins: map[string][][2]string{}, declBySort: map[string][]string{}}
+		pins: map[string][][2]string{}, declBySort: map[string][]string{}, ptrCells: map[*ssa.Alloc]*Addr{}}
 	defer func() {
 		if r := recover(); r != nil {
 			switch e := r.(type) {
@@ -78,6 +78,9 @@ func (eng *Engine) buildVCWith(fn *ssa.Function, con *Contract, key string) (vc 
 		all = append(all, vc.con.Ensures...)
 		all = append(all, vc.con.Panics...)
 		for _, cs := range vc.con.Invs {
+			all = append(all, cs...)
+		}
+		for _, cs := range vc.con.Steps {
 			all = append(all, cs...)
 		}
 		for _, c := range all {
